@@ -635,6 +635,18 @@ func (x *Exec) evalCall(env *Env, e *Expr) Value {
 			sub := *env
 			sub.st = env.old
 			return x.evalExpr(&sub, e.Args[0])
+		case "aftercall":
+			// aftercall("callee@k", e): e in the heap right after the k-th call of callee in this function
+			if len(e.Args) != 2 || e.Args[0].Kind != "str" {
+				x.fail("aftercall needs a string literal and an expression")
+			}
+			o := x.sitePost[e.Args[0].Name]
+			if o == nil {
+				x.fail("aftercall: no call %s has been executed on the way here", e.Args[0].Name)
+			}
+			sub := *env
+			sub.st = o
+			return x.evalExpr(&sub, e.Args[1])
 		case "loopentry", "iterstart":
 			// the expression evaluated in the heap (and with the header variables) of
 			// the loop's entry / of the start of the current iteration
